@@ -181,13 +181,14 @@ SetEntry == /\ o.etype = ET_EXEC /\ WIsZero(o.entry) /\ o.syms # <<>>
             /\ \E y \in 1..Len(o.syms) : /\ o.syms[y].shndx # 0 /\ ~WIsZero(o.syms[y].value)
                                          /\ \A z \in 1..Len(o.syms) : o.syms[z].value = o.syms[y].value => z = y
                                          /\ o' = [o EXCEPT !.entry = o.syms[y].value]
-Derived == file' = Encode(o') /\ view' = Read(file')
+\* the action's name is printed once per generated transition: the engine counts them (per-action coverage)
+Derived(a) == file' = Encode(o') /\ view' = Read(file') /\ PrintT(<<"ACT", a>>)
 Init == Init0 /\ file = Encode(o) /\ view = Read(file)
-Next == \/ AddSection /\ Derived
-        \/ AddSymbol /\ Derived
-        \/ AddRela /\ Derived
-        \/ AddSegment /\ Derived
-        \/ SetEntry /\ Derived
+Next == \/ AddSection /\ Derived("AddSection")
+        \/ AddSymbol /\ Derived("AddSymbol")
+        \/ AddRela /\ Derived("AddRela")
+        \/ AddSegment /\ Derived("AddSegment")
+        \/ SetEntry /\ Derived("SetEntry")
 
 \* ---------------------------------------------------------------- laws ----
 F0 == file
